@@ -10,6 +10,7 @@ ap.add_argument('--from', dest='src')
 ap.add_argument('--only')
 ap.add_argument('--tier', default='quick')
 ap.add_argument('--no-tests', action='store_true')
+ap.add_argument('--restrict')
 ap.add_argument('--own-only', action='store_true', help='run only the check of the property the change was written for')
 a = ap.parse_args()
 root = '/verif/seeded/benign'
@@ -32,7 +33,7 @@ if a.only:
 
 def run(job):
     d, bid, prop = job
-    cmd = [sys.executable, '/verif/tools/benign_eval.py', d, bid, prop, '--tier', a.tier, '--keep'] + (['--no-tests'] if a.no_tests else []) + (['--checks', prop] if a.own_only else [])
+    cmd = [sys.executable, '/verif/tools/benign_eval.py', d, bid, prop, '--tier', a.tier, '--keep'] + (['--no-tests'] if a.no_tests else []) + (['--checks', prop] if a.own_only else []) + (['--restrict', a.restrict] if a.restrict else [])
     p = subprocess.run(cmd, stdout=subprocess.PIPE, stderr=subprocess.STDOUT, text=True)
     print('=== %s\n%s' % (bid, '\n'.join(l for l in p.stdout.splitlines() if 'conda' not in l.lower())), flush=True)
 
